@@ -590,7 +590,7 @@ func Generate(c *core.Ctx, rng *rand.Rand) (walks [][]json.RawMessage, keys []st
 		num = 50
 	}
 	if !c.Quick() {
-		num, depth = 2000, 20
+		num, depth = 600, 20
 	}
 	var b Behaviours
 	r, err := tlc.Run(tlc.Opts{SpecDir: core.SpecDir(), Module: "MC_Crdt", Cfg: mcCfg(keysTLA, 3, 8, 6, "sim"), Workers: 1,
